@@ -29,6 +29,12 @@ def configs(tier, seed):
                         out.append({"name": "%s-%s-%s-r%d-c%d" % (main_dir, transform, isn, nrec, ncuts), "harness": "segmentation",
                                     "main": main_dir, "transform": transform, "isn": isn, "mode": "real", "nrec": nrec,
                                     "ncuts": ncuts, **T})
+    if tier == "quick":
+        # a segment captured behind two later ones (the quick tier displaces by one place otherwise)
+        for main_dir in ("server", "client"):
+            T2 = dict(T, disp=2)
+            out.append({"name": "%s-cuts+reorder-any-r2-c2-disp2" % main_dir, "harness": "segmentation", "main": main_dir, "transform": "cuts+reorder", "isn": "any",
+                        "mode": "real", "nrec": 2, "ncuts": 2, **T2})
     # the whole program (main.run -> Session -> builder) on connections whose every TCP segment carries s bytes: single bytes, records
     # spanning many segments, a record's last byte alone in a segment
     from tlv.harness import c01
